@@ -6,6 +6,7 @@ import (
 
 	"github.com/aperturerobotics/bifrost/crypto"
 	"github.com/aperturerobotics/bifrost/keypem"
+	"github.com/pkg/errors"
 	"github.com/sirupsen/logrus"
 )
 
@@ -34,6 +35,9 @@ func OpenOrWritePrivKey(le *logrus.Entry, privKeyPath string) (crypto.PrivKey, e
 			if le != nil {
 				le.Debug("wrote private key")
 			}
+		} else {
+			// e.g. permission denied, not a directory, too many symlinks
+			return nil, err
 		}
 	} else {
 		dat, err := os.ReadFile(privKeyPath)
@@ -43,6 +47,9 @@ func OpenOrWritePrivKey(le *logrus.Entry, privKeyPath string) (crypto.PrivKey, e
 		privKey, err = keypem.ParsePrivKeyPem(dat)
 		if err != nil {
 			return privKey, err
+		}
+		if privKey == nil {
+			return nil, errors.Errorf("no pem private key found in %s", privKeyPath)
 		}
 	}
 	return privKey, err
